@@ -59,6 +59,8 @@ pub const BENDS: &[&str] = &[
     "footer_pad_ones",
     "escape_zero_width",
     "lpc_order_32_small_block",
+    "fixed_extreme",
+    "stereo_extreme",
 ];
 
 /// a probe whose name is made at run time (interned, so each distinct name is allocated once)
@@ -155,7 +157,7 @@ fn apply_bend(name: &str, ch: &Choices, rng: &mut Xoshiro, spec: &mut FrameSpec,
         "order_gt_block" | "lpc_order_32_small_block" => {
             // the frame must be small: the caller arranges n <= 8 for these
             let s = &mut spec.subs[si];
-            let eb = s.bits - s.wasted;
+            let eb = s.bits.saturating_sub(s.wasted).clamp(1, 40);
             let lpc = name == "lpc_order_32_small_block" || rng.next() % 2 == 0;
             let order = if lpc { (n as u32 + 1 + (rng.next() % 8) as u32).min(32) } else { 4 };
             if order as usize <= n {
@@ -227,7 +229,7 @@ fn apply_bend(name: &str, ch: &Choices, rng: &mut Xoshiro, spec: &mut FrameSpec,
                 return false;
             }
             let s = &mut spec.subs[si];
-            let eb = s.bits - s.wasted;
+            let eb = s.bits.saturating_sub(s.wasted).clamp(1, 40);
             let order = (1 + rng.next() % 32).min(n as u64 - 1) as u32;
             let precision = *ch.pick("bent.coef.prec", &[15u32, 15, 1, 8]);
             let (cmin, cmax) = (-(1i64 << (precision - 1)), (1i64 << (precision - 1)) - 1);
@@ -253,10 +255,46 @@ fn apply_bend(name: &str, ch: &Choices, rng: &mut Xoshiro, spec: &mut FrameSpec,
             let parts = if rng.next() % 2 == 0 { vec![PartSpec::Zero(cnt)] } else { small_parts(rng, &[cnt], m1) };
             s.body = SubSpec::Lpc { order, warm_up: warm, precision, shift: *ch.pick("bent.coef.shift", &[0u32, 0, 1, 15]), coefs, method1: m1, parts };
         }
+        "fixed_extreme" => {
+            // legal grammar, extreme arithmetic: order-4 FIXED predictor over alternating full-scale
+            // warm-up samples, residuals at the limits of 32 bits
+            if n < 6 {
+                return false;
+            }
+            let s = &mut spec.subs[si];
+            let eb = s.bits.saturating_sub(s.wasted).clamp(1, 40);
+            let (lo, hi) = (-(1i64 << (eb - 1)), (1i64 << (eb - 1)) - 1);
+            let order = 1 + (rng.next() % 4) as u32;
+            let warm: Vec<i64> = (0..order).map(|i| if i % 2 == 0 { hi } else { lo }).collect();
+            let m1 = rng.next() % 2 == 0;
+            let cnt = n - order as usize;
+            let big = *ch.pick("bent.fixed.res", &[i32::MAX as i64, i32::MIN as i64 + 1, 1 << 30, -(1 << 30), 0]);
+            let r: Vec<i64> = (0..cnt).map(|i| if i % 3 == 0 { big } else if i % 3 == 1 { -big } else { 0 }).collect();
+            let parts = vec![if big.abs() < (1 << 30) && rng.next() % 2 == 0 { PartSpec::Escaped(31, r) } else { PartSpec::Rice(if m1 { 30 } else { 14 }, r) }];
+            s.body = SubSpec::Fixed { order, warm_up: warm, method1: m1, parts };
+        }
+        "stereo_extreme" => {
+            // decorrelated stereo whose two subframes hold opposite extremes: the reconstruction of
+            // left/right leaves the frame's bit depth
+            if !(8..=10).contains(&spec.assignment) {
+                return false;
+            }
+            let pat = rng.next() % 4;
+            for (k, s) in spec.subs.iter_mut().enumerate() {
+                s.wasted = 0;
+                let (lo, hi) = (-(1i64 << (s.bits - 1)), (1i64 << (s.bits - 1)) - 1);
+                let v = if (k as u64 + pat) % 2 == 0 { hi } else { lo };
+                s.body = if pat < 2 {
+                    SubSpec::Constant { sample: v }
+                } else {
+                    SubSpec::Verbatim { samples: (0..n).map(|i| if i % 2 == 0 { v } else { -1 - v }).collect() }
+                };
+            }
+        }
         "sample_bits_off" => {
             let s = &mut spec.subs[si];
-            let eb = s.bits - s.wasted;
-            s.bend.sample_bits = Some(if rng.next() % 2 == 0 { eb + 1 } else { eb.saturating_sub(1) });
+            let eb = s.bits.saturating_sub(s.wasted).clamp(1, 40);
+            s.bend.sample_bits = Some(if rng.next() % 2 == 0 { (eb + 1).min(40) } else { eb.saturating_sub(1) });
         }
         "bs_code_0" => spec.bend.bs_code = Some(0),
         "rate_15" => spec.rate_code = 15,
@@ -361,6 +399,15 @@ pub fn run(ctx: &mut Ctx) -> R {
         probe("bent_not_applicable_to_this_frame");
         return Ok(());
     }
+    if ctx.tier == Tier::Thorough && ch.draw("bent.second", 4) == 0 {
+        // two deviations in one frame
+        let second = *ch.pick("bent.kind2", BENDS);
+        let mut d2 = String::new();
+        if second != bend && apply_bend(second, &ch, &mut rng, &mut bent_spec, &mut d2) {
+            detail = format!("{detail} + {second}{d2}");
+            probe("bent_two_deviations_in_one_frame");
+        }
+    }
     let bent_frame = refflac::write_frame(&bent_spec);
     let mut frames = good.clone();
     frames[pos] = bent_frame.clone();
@@ -400,7 +447,7 @@ pub fn run(ctx: &mut Ctx) -> R {
         }
         "C05" => {
             // the range of the coded number is not an entry of a code table: not judged as must-reject
-            let must_reject = !alt_valid && bend != "number_7byte";
+            let must_reject = !alt_valid && !label.contains("number_7byte");
             if must_reject {
                 probe("bent_must_reject");
                 let flat = pcm.concat();
